@@ -142,6 +142,24 @@ func runFaultStream(seed int64, n int, out, backendSpec, tier string) *RunReport
 				targets = append(targets, &Op{Kind: "Update", Q: sorted, KVs: map[string]interface{}{"x": int64(9)}})
 				targets = append(targets, &Op{Kind: "ForEach", Q: sorted, Stop: 1, Mode: 1})
 			}
+			// catalog operations that really scan: an index created over existing documents, an existing index dropped, a
+			// populated collection dropped; and indexed reads / writes through every existing index
+			for _, c := range h.names {
+				cst := h.colls[c]
+				if cst == nil || len(cst.ids) == 0 {
+					continue
+				}
+				targets = append(targets, &Op{Kind: "CreateIndex", Coll: c, Field: "zz-new"})
+				for _, fld := range cst.indexes {
+					targets = append(targets, &Op{Kind: "DropIndex", Coll: c, Field: fld})
+					byIdx := QSpec{Coll: c, Steps: []QStep{{Kind: "sort", Opts: []SortOpt{{fld, 1}}}}}
+					targets = append(targets, &Op{Kind: "FindAll", Q: byIdx, Mode: 2})
+					targets = append(targets, &Op{Kind: "Delete", Q: QSpec{Coll: c, Steps: []QStep{{Kind: "where", C: &Crit{Kind: "cmp", Op: "OGtEq", Field: fld, Val: Operand{Lit: int(-100)}}}}}})
+					break
+				}
+				targets = append(targets, &Op{Kind: "DropCollection", Coll: c})
+				break
+			}
 			// the multi-transaction composites, always (known finding K-composite)
 			if c, ok := h.pickExisting(); ok {
 				targets = append(targets, &Op{Kind: "CreateByQuery", Coll: "zq-new", Q: QSpec{Coll: c}})
